@@ -83,6 +83,7 @@ package generator
 //@ func validateMethods
 //@   props C09 C03 C05
 //@   loop@C05 3 invariant forall j int :: 0 <= j && j < idx ==> FieldSettingsOK(lookup.Exact[signature][j].Item)
+//@   loop@C05,C03 2 invariant forall i int, j int :: 0 <= i && i < idx && 0 <= j && j < len(lookup.Exact[signatures[i]]) ==> FieldSettingsOK(lookup.Exact[signatures[i]][j].Item)
 //@   maprange 1 unordered-result signatures
 // the collected keys are pairwise distinct (map keys); the comparator must decide every such pair
 //@   sortcall 1 total
@@ -138,6 +139,10 @@ package generator
 //@   ensures err == nil && result1 == nil ==> result0 == nil
 //@   ensures err == nil && result1 != nil ==> result1.Code != nil
 //@   at call g.lookup.Get#1 assert !has(g.extend.Exact, signature)
+// both indexes are asked with the context that is AVAILABLE at this point of the generation (the method's own
+// context plus what generated sub methods inherit)
+//@   at@C06 call g.extend.Get#1 assert arg0 == signature && same(arg1, ctx.AvailableContext)
+//@   at@C06 call g.lookup.Get#1 assert arg0 == signature && same(arg1, ctx.AvailableContext)
 // C01 (F10): a generated method that is called without having been created here remembers its caller
 //@   at@C01 call g.CallMethod#2 assert len(genMethod.Callers) > 0 && genMethod.Callers[len(genMethod.Callers)-1] == ctx.IndexID
 
@@ -254,6 +259,9 @@ package generator
 //@   at@C16 call f.Content.HeaderComment#1 assert arg0 == "// Code generated by github.com/jmattheis/goverter, DO NOT EDIT."
 //@   at@C16 call f.Content.HeaderComment#2 assert cfg.BuildConstraint != "" && arg0 == "//go:build " + cfg.BuildConstraint
 //@   at@C16 return assert !ok && cfg.BuildConstraint == "" ==> true
+// the package clause: the configured name when there is one, otherwise left to jennifer (directory name, normalised)
+//@   at@C15 call jen.NewFilePath#1 assert conv.OutputPackageName == "" && arg0 == conv.OutputPackagePath
+//@   at@C15 call jen.NewFilePathName#1 assert conv.OutputPackageName != "" && arg0 == conv.OutputPackagePath && arg1 == conv.OutputPackageName
 // every newly created file gets the generated-code header, and the build constraint whenever one is configured
 // (whatever its package is: the constraint is what keeps stale output out of the next run)
 //@   ensures@C16 err == nil && !old(has(m.Files, getOutputDir(conv))) ==> reached("f.Content.HeaderComment#1")
